@@ -171,7 +171,7 @@ PROPS["C04"] = {
              "handshake step {capability omitted / altered / duplicated, 101 then plaintext multiplexer, 101 then garbage, upgrade answered 200 / 403 / 503, announce answered 500, TLS alert, "
              "101 without headers, honest plaintext} over tcp and unix; (c) real +tls / https endpoint against a scripted client speaking plaintext in 4 ways; delivery segmentation is sampled; "
              "non-trivial = the cell's oracle was evaluated; distinct = cells x schedule shapes"),
-    "probes": ["sessions_established", "sessions_refused", "plaintext_session_observed", "deviation_refused", "plaintext_client_refused", "second_sessions_established", "fault_carrier_reset", "fault_server_restart"],
+    "probes": ["sessions_established", "sessions_refused", "plaintext_session_observed", "deviation_refused", "plaintext_client_refused", "second_sessions_established", "fault_carrier_reset", "fault_server_restart", "fault_file_read_error"],
     "technique": "deterministic simulation: enumerated security matrix and enumerated byzantine peer deviations, wire-tap oracle (payload windows never in clear on a protected session)",
     "level_text": ("Fault enumeration. Payloads are high-entropy PRF streams; six 24-byte windows of each are searched in everything that crossed the carrier. On a session that must be protected "
                    "(client -s, encrypted carrier, or StartTLS on offer) no window may appear; with StartTLS on offer an established session must report tls on the client and have been upgraded on "
